@@ -1,8 +1,25 @@
 from props import cfg
 
 CFG = cfg('C10', refine=['Refine_armor'], extract='Ex_C10', driver='c10',
-          rule='TBD',
-          trusted=['Spec/Rfc4880_armor.v (RFC 4880 section 6 transcription)'],
-          assumptions=['TBD'])
+          rule='payload lengths 1..3000 (quick: 1..149 and every 47th, all residues mod 3 and 48) x {all-zero, all-FF, random} x 4 labels x 6 header sets: '
+               'base64 / CRC-24 / str() against model, RFC transcription, independent bit-serial CRC and an independent de-armorer; reading back as '
+               'str / bytes / bytearray over LF, CRLF, surrounding text, missing final newline; every single-character replacement (12 quick / 98 thorough '
+               'characters + deletion) at every position of the body and CRC lines of short payloads; random armor-like line soups and base64 alphabet / pad / junk '
+               'strings (model = line-oriented reading of the pinned expression + CPython a2b_base64 state machine); real keys (public + private), '
+               'messages (literal, compressed, signed, SKESK / PKESK encrypted), detached signatures, cleartext messages: str() vs model, armored vs binary load, '
+               'every block offered to PGPKey / PGPMessage / PGPSignature. distinct = distinct canonical (suite, input); nontrivial = block accepted',
+          trusted=['Spec/Rfc4880_armor.v (RFC 4880 section 6 transcription: CRC-24 routine, radix-64 on 24-bit groups, block labels, 76-character limit)',
+                   'pinned texts in tools/harness/c10.py (armor expression, template, ascii_unarmor / is_ascii / __str__ / from_blob / magic / parse kind checks, compared by AST)'],
+          assumptions=['Python runtime reached only through the correspondence run: the re engine (the model reads the pinned expression line by line), '
+                       'base64 / binascii (model = b64encode and the non-strict a2b_base64 of CPython 3.12), str.format, OrderedDict, latin-1 codecs',
+                       'packet parsing behind the kind checks is C08 / C14 territory; here only label -> accept / ValueError / TypeError'])
 
-TEXT = ('TBD', 'DESIGN.md 5 C10', 'machine-checked proof in Rocq (Coq 8.16.1) + AST translator + extracted-model correspondence')
+TEXT = ('Rocq theorems (Props/C10.v, closed under the global context): base64 round trip for every octet string, alphabet, equality with the RFC 4880 6.3 encoding, '
+        'foreign characters never change the decoding; wrapped lines <= 64 <= 76 and each line is the base64 of a 48-octet piece; CRC-24 equals the RFC 6.1 routine on a '
+        '24-bit register for every octet string (invariant: the unmasked accumulator stays below 2^24); ascii_unarmor(str(x)) returns label, headers, exactly the payload, '
+        'crc24(payload), no warning - for LF, CRLF, and embedded in foreign text - for every label, every header set without ": " in a key, every non-empty payload; '
+        'warning <-> crc24(body) <> stated crc; kind decision table; labels = RFC 6.2 labels; header sets outside wf_headers refuted with a witness. '
+        'Tie: translator (crc24, init/poly, 64, 3 regenerated into Gen/, Refine_armor.v) + pinned expression / template / sources + correspondence of the extracted '
+        'model with Armorable and the three parse methods + direct oracles (independent de-armorer, independent CRC, armored-vs-binary load, corruption must warn or refuse).',
+        'DESIGN.md 5 C10',
+        'machine-checked proof in Rocq (Coq 8.16.1) + AST translator + extracted-model correspondence')
